@@ -99,6 +99,9 @@ def cases(tier, seed, focus=None):
             if j % 8 == 1:  # identical retained second call
                 s = dict(rng.choice(jd), r=True)
                 h[0], h[1] = s, dict(s)
+            if j % 8 == 2:  # an unretained torchjd call observed by a probe of one part of the graph only
+                probes = [s for s in al if s["op"] in ("agh", "agt", "ag", "tb")]
+                h = [dict(rng.choice(jd), r=False), rng.choice(probes)] + h[2:]
             if not any(s["op"] in _JD for s in h):
                 h[rng.randrange(n)] = rng.choice(jd)
             out.append({"fam": fam, "tpl": rng.choice(tpls), "steps": h, "agg": rng.choice(AGGS),
